@@ -30,6 +30,16 @@ def req_pattern(name, n):
     if name == "low_block":
         k = min(n, 5)
         return {n - 1 - i: i for i in range(k)}  # the *last* variables ask for the ids the first would get
+    if name == "mid_block":
+        # consecutive requested ids that do not start at 0, asked for by the *last* variables
+        k = min(n, 3)
+        return {n - 1 - i: 3 + i for i in range(k)}
+    if name == "high_block":
+        k = min(n, 4)
+        return {i: 10 + i for i in range(k)}
+    if name == "pairs":
+        # several separate runs of two consecutive ids
+        return {i: (5 * (i // 2) + 2 + i % 2) for i in range(min(n, 8))}
     if name == "interleaved":
         return {i: 2 * i + 1 for i in range(0, min(n, 100), 3)}
     if name == "dup":
@@ -221,7 +231,7 @@ def run(tier):
             rb.Cfg(10, "A"), rb.Cfg(10, "A", scratch_slots=False)]
     items = []
     for n in ns:
-        for req in ("none", "zero", "top", "both", "low_block", "interleaved", "dup"):
+        for req in ("none", "zero", "top", "both", "low_block", "mid_block", "high_block", "pairs", "interleaved", "dup"):
             for placement in ("main", "split1", "split2", "shared"):
                 for kind in ("scratchvar", "dyn"):
                     if kind == "dyn" and placement != "main":
